@@ -5,7 +5,7 @@ CONSTANTS
   Deps <- DepsD
   Roots <- RootsD
   SubscribeLate = FALSE
-  MaxAbandon = 0
+  MaxAbandon = 1
   SilentAbandon = FALSE
 INVARIANT Emit
 INVARIANT SingleFlight
